@@ -2121,6 +2121,11 @@ API_SURFACE = [
     ('html_escape / tob', 'covered by the catch-all page (special path); tob(bytes) branch unreachable from wsgi()'),
     # ---- environ
     ('REQUEST_METHOD (7 verbs; spelling)', 'covered; lower-case spellings in C03a'),
+    ('Request.__setitem__ from a before_request hook (PATH_INFO / REQUEST_METHOD rewritten before routing)', 'covered by '
+     'rewrite cases (env mutations; the request arrives under another path / verb) and, with the routing computed by the '
+     'model, in C03a (App.environ_after_before, theorem App_routing_after_before_hooks)'),
+    ('header values of type int / float / bool / None', 'covered by typed values in set/add mutations and response headers '
+     '(1, 1.0, True, 0, 0.0, False, None ...); cross-request equality of such values in C09'),
     ('HTTP_ACCEPT', 'covered by accept= spellings'),
     ('SERVER_PROTOCOL', 'covered by proto (redirect)'),
     ('wsgi.file_wrapper', 'covered by fw'),
